@@ -309,7 +309,7 @@ theorem shape_exact (N : Num V) (cfg : Cfg) (h1 : cfg.integerSteps = true)
       = List.replicate ranges.length n := by
   rw [grid_fits_n_pow_d N cfg h1]
   have : 0 < ranges.length := List.length_pos_iff.mpr hd
-  simp [shapeOf, sideOf, h2, Grid.iroot_pow n _ this]
+  simp [shapeOf, sideOf, h2, Grid.sideRound_pow n _ this]
 
 /-- the reported shape accounts for every fitted cell -/
 theorem shape_prod (N : Num V) (cfg : Cfg) (h1 : cfg.integerSteps = true)
@@ -776,6 +776,47 @@ example : count (cellComp (V := Nat)
               ("h", .model "P3" ["a", "b", "c"] [("a", .prior 7), ("b", .prior 5), ("c", .const 1)])])
       [7, 5] [8, 9]) = 3 :=
   (cell_count _ [7, 5] [8, 9] rfl (by decide) (by decide)).trans (by decide)
+
+/-! ## the reported shape for every number of results (perfect power or not, every `d`)
+
+`GridSearchResult` derives its shape from the *number* of unit lists it is given,
+`d * (int(round(N ** (1 / d))),)`; `sideRound` is that integer for every `N` (what the code does when a
+result is built from a list that is not a full grid), compared with the real class for all `N` below a cap
+and `d ≤ 6` on every run. -/
+
+/-- the integer root for every argument -/
+theorem iroot_spec (t d : Nat) (hd : 0 < d) : iroot t d ^ d ≤ t ∧ t < (iroot t d + 1) ^ d :=
+  Grid.iroot_spec t d hd
+
+/-- on a full grid the rounded root is the number of steps -/
+theorem side_round_pow (n d : Nat) (hd : 0 < d) : sideRound (n ^ d) d = n :=
+  Grid.sideRound_pow n d hd
+
+/-- for every number of results the reported side is the integer nearest to the real `d`-th root:
+`(2s-1)^d ≤ 2^d·N < (2s+1)^d` -/
+theorem side_round_nearest (total d : Nat) (hd : 0 < d) :
+    (2 * sideRound total d - 1) ^ d ≤ 2 ^ d * total ∧ 2 ^ d * total < (2 * sideRound total d + 1) ^ d :=
+  Grid.sideRound_nearest total d hd
+
+/-- the reported shape accounts for every result (and `native` can reshape the per-cell lists) exactly
+when the number of results is a perfect `d`-th power: a result built from any other number of cells - an
+interrupted or hand-made list - has a shape whose product is not the number of its entries -/
+theorem shape_accounts_iff (cfg : Cfg) (h : cfg.shapeExact = true) (total d : Nat) (hd : 0 < d) :
+    nativeOk cfg total d = true ↔ ∃ n, n ^ d = total := by
+  simp only [nativeOk, prod_replicate, beq_iff_eq, sideOf, h, if_true]
+  constructor
+  · intro e; exact ⟨_, e⟩
+  · rintro ⟨n, rfl⟩; rw [Grid.sideRound_pow n d hd]
+
+/-- so after a full search the reshaped (`native`) arrays exist, in every dimension -/
+theorem native_ok_after_full_search (N : Num V) (cfg : Cfg) (h1 : cfg.integerSteps = true)
+    (h2 : cfg.shapeExact = true) (n : Nat) (ranges : List (V × V)) (hd : ranges ≠ []) :
+    nativeOk cfg (gridModel N cfg n ranges).length ranges.length = true := by
+  rw [grid_fits_n_pow_d N cfg h1]
+  exact (shape_accounts_iff cfg h2 _ _ (List.length_pos_iff.mpr hd)).mpr ⟨n, rfl⟩
+
+example : sideRound 8 2 = 3 ∧ sideRound 6 2 = 2 ∧ sideRound 80 4 = 3 ∧ sideRound 81 4 = 3 ∧
+    nativeOk {} 8 2 = false ∧ nativeOk {} 81 4 = true ∧ nativeOk {} 7776 5 = true := by decide
 
 /-! tests (evaluated by the compiler at build time, not theorems): libm's `pow` does not reduce in
 the kernel, so the link between `sideF` and the bit pattern above is checked here -/
